@@ -49,9 +49,10 @@ def _hist_scenarios(prop_id, tier, seed, fmts, sample):
     return out, stats
 
 
-def _persist_gen(prop_id, mode, max_at):
+def _persist_gen(prop_id, mode, max_at, stride=7, max_strides=0, stride2=5, max_strides2=0):
     scen, stats = vc.gen_scenarios(prop_id, "MC_Persist", "MC_Persist.cfg", ec.ENGINE_DEPS,
-                                   consts={"Mode": '"%s"' % mode, "MaxAt": max_at}, workers=1)
+                                   consts={"Mode": '"%s"' % mode, "MaxAt": max_at, "Stride": stride, "MaxStrides": max_strides,
+                                           "Stride2": stride2, "MaxStrides2": max_strides2}, workers=1)
     return scen, stats
 
 
@@ -98,7 +99,9 @@ def check_c19(prop_id, tier, seed):
 @prop("C20")
 def check_c20(prop_id, tier, seed):
     t0 = time.time()
-    scen, stats = _persist_gen(prop_id, "fault", {"quick": 16, "thorough": 700}[tier])
+    # offsets 0 .. MaxAt, the last 16 bytes, and every Stride-th byte up to Stride * MaxStrides
+    max_at, stride, max_strides, stride2, max_strides2 = {"quick": (16, 17, 45, 5, 160), "thorough": (700, 3, 900, 1, 2000)}[tier]
+    scen, stats = _persist_gen(prop_id, "fault", max_at, stride, max_strides, stride2, max_strides2)
     # all faults on one saved database share their prefix: merge them into one scenario per format (the running
     # database is not touched by a damaged load, so the steps are independent)
     groups = {}
@@ -126,7 +129,8 @@ def check_c20(prop_id, tier, seed):
                 k = "%s/%s/%s" % (e["a"]["fmt"], e["a"]["fault"]["kind"], e["out"])
                 outcomes[k] = outcomes.get(k, 0) + 1
     return ec.finish(prop_id, tier, seed, t0, verdict, events, stats, configs=cfgs, level="fault_enumeration",
-                     rule="one scenario = one saved database (three rows of extreme value classes, two indexes) and up to 60 damaged "
+                     rule="one scenario = one saved database (three rows of extreme value classes and two indexes, or a catalog with a CHECK constraint, "
+                          "a trigger with an IN list and a function call in its WHEN condition and a view) and up to 60 damaged "
                           "copies of its file, each loaded in a child process; counted per format / fault kind / outcome below",
                      extra_cov={"faults_generated": len(scen), "outcomes_by_format_fault": outcomes,
                                 # non-trivial here = a scenario in which at least one damaged copy was actually loaded
